@@ -198,7 +198,6 @@ PROPS = {
         "design_ref": "DESIGN.md section 6 C09",
         "jobs": [
             {"unit": "c09"},
-            {"unit": "c09", "variant": "native", "tiers": ["thorough"]},
             {"unit": "c09", "variant": "ndebug", "tiers": ["thorough"]},
             {"unit": "c09", "variant": "clang", "tiers": ["thorough"]},
         ],
@@ -222,7 +221,6 @@ PROPS = {
             {"unit": "c05", "tiers": ["quick"]},
             {"unit": "c05full", "tiers": ["thorough"]},
             {"unit": "c05full", "variant": "ndebug", "tiers": ["thorough"]},
-            {"unit": "c05", "variant": "native", "tiers": ["thorough"]},
             {"unit": "c05", "variant": "clang", "tiers": ["thorough"]},
         ],
         "rule": "each evaluation = one output lane (slides: one output byte) compared with the index model; constant-mask families: identity, reverse, broadcast k, rotate k, swap "
@@ -274,7 +272,6 @@ PROPS = {
             {"unit": "c19"},
             {"unit": "c05full", "tiers": ["thorough"]},
             {"unit": "c19", "variant": "clang", "tiers": ["thorough"]},
-            {"unit": "c19", "variant": "native", "tiers": ["thorough"]},
         ],
         "rule": "each evaluation = one lane of one instantiated constant (or of one constant-parameter API call) compared with the pack / scalar operation / run-time form; "
                 "families: one-hot and all-but-one for every lane, arange, constant, alternating, prefix, all-true/false, 4 random bool packs, 7 value packs, 6 operator "
